@@ -69,3 +69,10 @@ From CBGen Require Import Gen_inventory.
 Theorem C08_no_static_state : forallb stateless_ok gen_globals = true.
 Proof. exact bridge_stateless_files. Qed.
 Print Assumptions C08_no_static_state.
+
+(* "The call allocates nothing": neither the allocator pointers nor a libc allocation function is reachable from
+   cbor_stream_decode (nor from the encoders / serializers) in the call graph of this run *)
+Theorem C08_allocates_nothing :
+  match gen_callgraph with [] => true | _ => forallb fn_allocfree no_alloc_api end = true.
+Proof. exact bridge_no_alloc_reachable. Qed.
+Print Assumptions C08_allocates_nothing.
